@@ -377,6 +377,20 @@ fn enumerate_filter(base: &str, unit_name: &str) -> Vec<Case> {
             push(&mutate::flip_bit(b, off, bit), Some("bitflip"), format!("flip@{off}.{bit}"));
         }
     }
+    // a multi-byte character over every window of 2, 3, 4 bytes and inserted at every offset
+    for off in 0..=n {
+        for ch in ["é", "€", "😀"] {
+            let k = ch.len();
+            if off + k <= n {
+                let mut d = b.to_vec();
+                d.splice(off..off + k, ch.bytes());
+                push(&d, Some("utf8-splice"), format!("utf8-over@{off}+{k}"));
+            }
+            let mut d = b.to_vec();
+            d.splice(off..off, ch.bytes());
+            push(&d, Some("utf8-splice"), format!("utf8-insert@{off}+{k}"));
+        }
+    }
     // operators without operands, unbalanced parentheses
     for op in ["and", "or", "not", "==", "!=", "<", "<=", ">", ">=", "*==", "->", "?"] {
         let mut from = 0;
@@ -400,7 +414,7 @@ impl C09 {
         // (generated base filters, search units, cases per search unit, eval units, cases per eval unit)
         match self.ctx.tier {
             Tier::Quick => (400, 256, 8000, 256, 6000),
-            Tier::Thorough => (1500, 1024, 16000, 1024, 12000),
+            Tier::Thorough => (3000, 4096, 20000, 2048, 20000),
         }
     }
 
@@ -506,6 +520,18 @@ impl Engine for C09 {
             id += 1;
         }
         units.push(UnitSpec { id, name: "ladder".into(), isolated: true, exhaustive: false });
+        id += 1;
+        // two-fault enumeration for the short base filters
+        let max2 = match self.ctx.tier {
+            Tier::Quick => 12,
+            Tier::Thorough => 28,
+        };
+        for (name, text) in self.base_filters() {
+            if text.len() <= max2 && !text.is_empty() {
+                units.push(UnitSpec { id, name: format!("enum2:{name}"), isolated: false, exhaustive: true });
+                id += 1;
+            }
+        }
         units
     }
 
@@ -516,6 +542,31 @@ impl Engine for C09 {
         }
         if unit.name == "ladder" {
             return Box::new(self.ladder().into_iter());
+        }
+        if let Some(name) = unit.name.strip_prefix("enum2:") {
+            let base = self.base_filters().into_iter().find(|(n, _)| n == name).expect("unit exists").1.into_bytes();
+            let uname = unit.name.clone();
+            let nbits = base.len() * 8;
+            // every pair of single-bit flips through both entry points
+            return Box::new((0..nbits).flat_map(move |a| {
+                let first = mutate::flip_bit(&base, a / 8, (a % 8) as u8);
+                let uname = uname.clone();
+                let mut out: Vec<Case> = Vec::new();
+                for b in a + 1..nbits {
+                    let doc = mutate::flip_bit(&first, b / 8, (b % 8) as u8);
+                    for sink in ["filter-parse", "filter-parse-capi"] {
+                        if (sink == "filter-parse" && std::str::from_utf8(&doc).is_err()) || (sink == "filter-parse-capi" && doc.contains(&0)) {
+                            continue;
+                        }
+                        let mut c = Case::new("C09", sink, &doc);
+                        c.extra.insert("mutation".into(), "bitflip".into());
+                        c.extra.insert("mutations".into(), "bitflip+bitflip".into());
+                        c.origin = format!("{uname} flip@{}.{}+flip@{}.{}", a / 8, a % 8, b / 8, b % 8);
+                        out.push(c);
+                    }
+                }
+                out.into_iter()
+            }));
         }
         let (_, _, per_search, _, per_eval) = self.sizes();
         let uname = unit.name.clone();
